@@ -653,3 +653,34 @@ MUTANTS += [
     B("c02-busy-intervals-all-but-the-first", ["C02"], RS,
       "        return list(self._busy_intervals.values())", "        return [self._busy_intervals[t] for t in list(self._busy_intervals)[1:]]"),
 ]
+
+_SORT_DUP_OLD = ("    sorted_list = z3_int_list.copy()\n    glob_asst = []\n\n    def bubble_up(ar):\n        arr = ar.copy()\n        local_asst = []\n"
+                 "        for i in range(len(arr) - 1):\n            x = arr[i]\n            y = arr[i + 1]\n            x1, y1 = z3.FreshInt(), z3.FreshInt()\n"
+                 "            c = z3.If(x <= y, z3.And(x1 == x, y1 == y), z3.And(x1 == y, y1 == x))\n            arr[i] = x1\n            arr[i + 1] = y1\n"
+                 "            local_asst.append(c)\n        return arr, local_asst\n\n    for _ in range(len(sorted_list)):\n"
+                 "        sorted_list, asst = bubble_up(sorted_list)\n        glob_asst.extend(asst)\n\n    return sorted_list, glob_asst\n")
+
+
+def _sort_dup_inline(passes="nb_values", first="1", cond="lower <= upper", write_hi="upper_idx"):
+    return ("    nb_values = len(z3_int_list)\n    sorted_list = z3_int_list.copy()\n    glob_asst = []\n"
+            f"    for _ in range({passes}):\n        next_pass = sorted_list.copy()\n        for upper_idx in range({first}, nb_values):\n"
+            "            lower_idx = upper_idx - 1\n            lower, upper = next_pass[lower_idx], next_pass[upper_idx]\n"
+            "            new_lower = z3.FreshInt()\n            new_upper = z3.FreshInt()\n"
+            "            keep_order = z3.And(new_lower == lower, new_upper == upper)\n"
+            "            swap_order = z3.And(new_lower == upper, new_upper == lower)\n"
+            f"            glob_asst.append(z3.If({cond}, keep_order, swap_order))\n"
+            f"            next_pass[lower_idx] = new_lower\n            next_pass[{write_hi}] = new_upper\n"
+            "        sorted_list = next_pass\n\n    return sorted_list, glob_asst\n")
+
+
+MUTANTS += [
+    # ---- the sorter without its sweep helper (inline form of R-SORT-NET) ----
+    T("c09-twin-bubble-sort-inlined", ["C09", "C14"], UT, _SORT_DUP_OLD, _sort_dup_inline()),
+    T("c09-twin-bubble-sort-inlined-n-minus-one-passes", ["C09", "C14"], UT, _SORT_DUP_OLD, _sort_dup_inline(passes="nb_values - 1")),
+    B("c09-inlined-sort-too-few-passes", ["C09", "C14"], UT, _SORT_DUP_OLD, _sort_dup_inline(passes="nb_values - 2")),
+    B("c09-inlined-sort-skips-the-first-pair", ["C09", "C14"], UT, _SORT_DUP_OLD, _sort_dup_inline(first="2")),
+    B("c09-inlined-sort-larger-first", ["C09", "C14"], UT, _SORT_DUP_OLD, _sort_dup_inline(cond="lower >= upper")),
+    B("c09-inlined-sort-result-written-at-the-wrong-position", ["C09", "C14"], UT, _SORT_DUP_OLD, _sort_dup_inline(write_hi="lower_idx")),
+    B("c09-inlined-sort-passes-not-chained", ["C09", "C14"], UT, _SORT_DUP_OLD,
+      _sort_dup_inline().replace("        next_pass = sorted_list.copy()\n", "        next_pass = z3_int_list.copy()\n")),
+]
